@@ -16,7 +16,7 @@ RULE = ("histories of 2-6 clients (threads, one proxy each, reconnecting now and
         "thread pool with THREADPOOL_SIZE_MIN=1 (workers reused by successive connections); a sequential phase forces worker reuse after a "
         "raising call. distinct = (history hash, server, serializer); one evaluation = one request; non-trivial = the request reached a method")
 ASSUMPTIONS = ["oneway completions are awaited (10 s watchdog, expiry = inconclusive)", "peer address compared with the client's getsockname() (TCP loopback)"]
-REQUIRED_REACH = ["injected_yields", "snapshots_checked", "replies_checked", "raising_calls", "oneway_calls", "batch_calls", "ping_replies", "handshake_replies", "worker_reuse_handshakes", "idless_requests", "reply_correlation_ids_checked", "refused_handshake_replies", "bare_requests"]
+REQUIRED_REACH = ["injected_yields", "snapshots_checked", "replies_checked", "raising_calls", "oneway_calls", "batch_calls", "ping_replies", "handshake_replies", "worker_reuse_handshakes", "idless_requests", "reply_correlation_ids_checked", "refused_handshake_replies", "bare_requests", "handshake_tokens_checked"]
 SHARD_TIMEOUT = {"quick": 240, "thorough": 2800}
 OPS = ["ret", "noresp", "noresp", "rais", "rais", "ow", "batch", "batch_rais", "propget", "propset", "ping", "handshake", "reconnect", "propget_rais", "badhandshake", "bare", "bare", "barepoll", "ow_rst"]
 # "ow_rst": a oneway call whose connection the client resets right after sending (the request may or may not get served)
@@ -116,6 +116,12 @@ def make_env(P, servertype, pool, variant=None):
     fx.register(Svc(), "svc")
     # daemon-wide annotations from a long-lived dict of the application (the documented Daemon.annotations() override point)
     fx.daemon.reply_annotations = {"DMON": b"static"}
+
+    # the application's handshake validator hands every new connection a token through the response annotations of the handshake answer
+    def issue_token(conn, data):
+        ctx.response_annotations = dict(ctx.response_annotations, HSHK=b"token-of-connection-%d" % conn._vserial)
+        return "hello"
+    fx.daemon.hs_validator = issue_token
     return fx, slog
 
 
@@ -276,6 +282,23 @@ def check_history(fx, slog, clients, rec, pay):
             # (b)/(c): a reply carries RESP only if it answers the very call that set it
             if r["kind"] == "reconnect":
                 continue
+            # the token the handshake validator issues belongs to the answer of that very handshake: no other reply carries one, and no two
+            # handshake answers carry the same
+            hs_tok = resp.get("HSHK")
+            if r["kind"] == "handshake" and not r.get("bad") and r.get("outcome") == wire.CONNECTOK:
+                seen_hs = getattr(slog, "hs_tokens", None)
+                if seen_hs is None:
+                    seen_hs = slog.hs_tokens = {}
+                if hs_tok is not None:
+                    hs_tok = bytes(hs_tok)
+                    if seen_hs.setdefault(hs_tok, token) != token:
+                        rec.violation("handshake-annotation-of-other-connection", "the handshake answer to client %d carries %r, the token issued to another connection" % (cl.cid, hs_tok), pay)
+                        return False
+                    rec.count("handshake_tokens_checked")
+            elif hs_tok is not None:
+                rec.violation("handshake-annotation-leaks-to-%s-reply" % ("refused-handshake" if r.get("bad") else r["kind"]), "client %d op %s: the reply carries HSHK=%r, which a handshake "
+                              "validator set for the answer to some connection's handshake" % (cl.cid, r["op"], bytes(hs_tok)), pay)
+                return False
             if r["kind"] == "badhandshake":
                 rec.count("refused_without_reply")       # (unknown serializer id: the daemon just closes) nothing was sent, nothing can leak
                 continue
